@@ -96,6 +96,40 @@ theorem stepThread_put {s t tid alt} : PutStep s t tid alt := by
   | 4 => exact put_g4 hg | 5 => exact put_g5 hg | 6 => exact put_g6 hg | 7 => exact put_g7 hg
   | n + 8 => omega
 
+/-- a producer gives up the value in its hand only when enqueueing is done (or its `put` timed out) -/
+def DropStep (s : Shared) (t : Thread) (tid : Tid) (alt : Bool) : Prop :=
+  ∀ lbl s' t', stepThread s t tid alt = some (lbl, s', t') →
+    putPc t.pc = true → putPc t'.pc = false → t'.pc ≠ .pStAcq → s.enqueueDone = true ∨ s.timeout = true
+
+set_option hygiene false in
+macro "drop_group" : tactic => `(tactic| (
+  intro lbl s' t' h
+  unfold stepThread at h
+  cases hpc : t.pc <;> (try (simp only [hpc, Pc.group] at hg; omega)) <;>
+    simp only [hpc] at h <;>
+    (try simp only [acquire, release, notify, waitPark, waitWake, goto, enqLoop, putLoop, batchLoop,
+      afterRaise, afterValue] at h) <;>
+    (repeat' split at h) <;>
+    (try simp only [Option.some.injEq, Prod.mk.injEq, reduceCtorEq] at h) <;>
+    (try (obtain ⟨-, rfl, rfl⟩ := h)) <;>
+    simp_all [putPc, enqueueDone_eq, Shared.setOwner]))
+
+theorem drop_g0 {s t tid alt} (hg : t.pc.group = 0) : DropStep s t tid alt := by drop_group
+theorem drop_g1 {s t tid alt} (hg : t.pc.group = 1) : DropStep s t tid alt := by drop_group
+theorem drop_g2 {s t tid alt} (hg : t.pc.group = 2) : DropStep s t tid alt := by drop_group
+theorem drop_g3 {s t tid alt} (hg : t.pc.group = 3) : DropStep s t tid alt := by drop_group
+theorem drop_g4 {s t tid alt} (hg : t.pc.group = 4) : DropStep s t tid alt := by drop_group
+theorem drop_g5 {s t tid alt} (hg : t.pc.group = 5) : DropStep s t tid alt := by drop_group
+theorem drop_g6 {s t tid alt} (hg : t.pc.group = 6) : DropStep s t tid alt := by drop_group
+theorem drop_g7 {s t tid alt} (hg : t.pc.group = 7) : DropStep s t tid alt := by drop_group
+
+theorem stepThread_drop {s t tid alt} : DropStep s t tid alt := by
+  have h := Pc.group_lt t.pc
+  match hg : t.pc.group with
+  | 0 => exact drop_g0 hg | 1 => exact drop_g1 hg | 2 => exact drop_g2 hg | 3 => exact drop_g3 hg
+  | 4 => exact drop_g4 hg | 5 => exact drop_g5 hg | 6 => exact drop_g6 hg | 7 => exact drop_g7 hg
+  | n + 8 => omega
+
 end MlModel.Queue
 
 namespace MlModel.Piter2
